@@ -12,9 +12,19 @@ import z3
 
 
 def _solve_one(task):
-    name, smt2, timeout_ms, want_model = task
+    name, smt2, timeout_ms, want_model = task[:4]
+    quick = len(task) > 4 and task[4]
     t0 = time.time()
     backend = "z3-5.1(py)"
+    if quick:
+        try:
+            s = z3.Solver()
+            s.set("timeout", timeout_ms)
+            s.from_string(smt2)
+            r = s.check()
+            return (name, "unsat" if r == z3.unsat else "unknown", backend, int((time.time() - t0) * 1000), None, "")
+        except Exception as ex:
+            return (name, "unknown", backend, int((time.time() - t0) * 1000), None, repr(ex))
     try:
         s = z3.Solver()
         s.set("timeout", timeout_ms)
@@ -95,7 +105,7 @@ def _cli(cmd, smt2, timeout_s):
 
 
 def _retry_other_backends(task):
-    name, smt2, timeout_ms, _ = task
+    name, smt2, timeout_ms = task[0], task[1], task[2]
     t0 = time.time()
     timeout_s = max(5, timeout_ms // 1000)
     if "lambda" not in smt2:
@@ -109,9 +119,41 @@ def _retry_other_backends(task):
 
 
 def discharge(obligations, timeout_ms=60000, procs=None, want_model=True):
+    """-> {name: (verdict, backend, ms, model, reason)}.  Clauses with parts: the whole clause first (short budget);
+    if that query is not `unsat`, every part is discharged on its own and the clause takes the worst part verdict."""
+    with_parts = [o for o in obligations if getattr(o, "parts", None)]
+    if not with_parts:
+        return _discharge_flat(obligations, timeout_ms, procs, want_model)
+    first = _discharge_flat(obligations, min(timeout_ms, 3000), procs, want_model=False, quick=True)
+    redo = [o for o in obligations if first[o.name][0] != "unsat"]
+    parts = []
+    simple = []
+    for o in redo:
+        if getattr(o, "parts", None):
+            parts.extend(o.parts)
+        else:
+            simple.append(o)
+    second = _discharge_flat(parts + simple, timeout_ms, procs, want_model) if (parts or simple) else {}
+    out = dict(first)
+    for o in redo:
+        if getattr(o, "parts", None):
+            rs = [second[p.name] for p in o.parts]
+            ms = first[o.name][2] + sum(r[2] for r in rs)
+            if all(r[0] == "unsat" for r in rs):
+                out[o.name] = ("unsat", "parts:" + rs[0][1], ms, None, f"{len(rs)} parts")
+            else:
+                bad = [(p.name, r) for p, r in zip(o.parts, rs) if r[0] != "unsat"]
+                worst = "sat" if any(r[0] == "sat" for _n, r in bad) else "unknown"
+                out[o.name] = (worst, bad[0][1][1], ms, bad[0][1][3], "failed parts: " + ", ".join(n.split("#")[-1] for n, _r in bad[:6]))
+        else:
+            out[o.name] = second[o.name]
+    return out
+
+
+def _discharge_flat(obligations, timeout_ms=60000, procs=None, want_model=True, quick=False):
     """-> {name: (verdict, backend, ms, model, reason)}"""
     procs = procs or min(16, os.cpu_count() or 4)
-    tasks = [(o.name, o.smt2(), timeout_ms, want_model) for o in obligations if not getattr(o, "trivial", False)]
+    tasks = [(o.name, o.smt2(), timeout_ms, want_model, quick) for o in obligations if not getattr(o, "trivial", False)]
     results = {o.name: ("unsat", "z3-simplify", 0, None, "") for o in obligations if getattr(o, "trivial", False)}
     if not tasks:
         return results
@@ -119,7 +161,7 @@ def discharge(obligations, timeout_ms=60000, procs=None, want_model=True):
     with ctx.Pool(procs) as pool:
         for r in pool.imap_unordered(_solve_one, tasks, chunksize=1):
             results[r[0]] = r[1:]
-        retry = [t for t in tasks if results[t[0]][0] == "unknown"]
+        retry = [t for t in tasks if results[t[0]][0] == "unknown"] if not quick else []
         if retry:
             for r in pool.imap_unordered(_retry_other_backends, retry, chunksize=1):
                 if r[1] != "unknown":
